@@ -4,6 +4,7 @@ mod c12;
 mod c13;
 mod c14;
 mod c15;
+mod c16;
 mod c17;
 mod c18;
 mod c19;
@@ -30,6 +31,7 @@ fn main() {
         "C13" => c13::main(chk),
         "C14" => c14::main(chk),
         "C15" => c15::main(chk),
+        "C16" => c16::main(chk),
         "C17" => c17::main(chk),
         "C18" => c18::main(chk),
         "C19" => c19::main(chk),
